@@ -72,6 +72,26 @@ func genPersistWorkload(r *rand.Rand, o persistOpts) []persistStep {
 		if o.mode == "snap" && r.Intn(4) == 0 {
 			steps = append(steps, persistStep{Step: Step{Tick: t}, Special: "save"})
 			nrw++
+			if r.Intn(3) == 0 {
+				// a second snapshot after changes that store no value: deletions, deadline edits, a flush
+				for j := 1 + r.Intn(2); j > 0; j-- {
+					k := S(pick(r, persistKeys))
+					var c []Tok
+					switch r.Intn(4) {
+					case 0:
+						c = []Tok{S("DEL"), k}
+					case 1:
+						c = []Tok{S("PEXPIREAT"), k, At(now+pick(r, []int64{1500, 3600000}), "ms")}
+					case 2:
+						c = []Tok{S("PERSIST"), k}
+					default:
+						c = []Tok{S("FLUSHDB")}
+					}
+					steps = append(steps, persistStep{Step: Step{Cmd: c}})
+				}
+				steps = append(steps, persistStep{Step: Step{}, Special: "save"})
+				nrw++
+			}
 			continue
 		}
 		if o.mode == "rewrite" && nrw < 2 && r.Intn(4) == 0 {
